@@ -71,6 +71,7 @@ def run_history(eng, rng, oc, allow_weird):
         with freeze_time(dt.datetime(2024, 6, 1, 12)):
             Z.db_create(d)
         day = DAY0
+        tainted = False      # a known-finding event earlier in this history left index and file apart
         for step in range(3):
             day = day + dt.timedelta(days=rng.choice([1, 1, 2, 30]))
             before_files = W.user_files(d)
@@ -91,7 +92,7 @@ def run_history(eng, rng, oc, allow_weird):
             oc.evaluations += 1
             case = {"day": day.isoformat(), "before": before_files, "edited": edited}
             ok = True
-            weird = False
+            weird = tainted
             for p, text in edited.items():
                 if text == before_files[p]:
                     if after_files[p] != text:
@@ -115,7 +116,7 @@ def run_history(eng, rng, oc, allow_weird):
                         expect.add(n["zid"])
                         has_md_word = bool(re.match(r"\d{6} ", n["body"]))
                         if has_md_word != (o["modify"] != n["create"]):
-                            weird = True
+                            weird = tainted = True
                 if set(stamped_model) != expect:
                     oc.corr_mismatch.append(("stamp decision", dict(case, page=p), sorted(expect), sorted(stamped_model)))
                     return False
